@@ -1351,15 +1351,18 @@ fn fbig_to_float<R: ModeTag, const B: Word>(ctx: &mut Ctx, tag: &str, vals: &[(B
             let case: &dyn Fn() -> String = &case;
             let w32 = round_rat(&x, F32, md);
             rec.hit(range_class(&w32, F32));
-            let cls = format!("{},{}", range_group(&w32, F32), br);
+            // a binary significand that fits the mantissa cannot suffer the (known) double rounding
+            // below the normal range: keep those inputs in a class of their own
+            let short = |bits: u64| if B == 2 && s.bits() - s.trailing_zeros().unwrap_or(0) <= bits { format!(",significand-fits-mantissa,{}", md.name()) } else { String::new() };
+            let cls = format!("{},{}{}", range_group(&w32, F32), br, short(24));
             chk_rounding::<f32>(rec, &format!("FBig<{}>::to_f32", B), &cls, case, guard(|| f.to_f32()), &w32);
             if with_f64 {
                 let w64 = round_rat(&x, F64, Mode::HalfEven);
-                let cls = format!("{},{}", range_group(&w64, F64), br);
+                let cls = format!("{},{}{}", range_group(&w64, F64), br, short(53));
                 chk_rounding::<f64>(rec, &format!("FBig<{}>::to_f64", B), &cls, case, guard(|| f.to_f64()), &w64);
                 if md == Mode::HalfEven {
                     chk_rounding::<f64>(rec, &format!("Repr<{}>::to_f64", B), &cls, case, guard(|| f.repr().to_f64()), &w64);
-                    let cls = format!("{},{}", range_group(&w32, F32), br);
+                    let cls = format!("{},{}{}", range_group(&w32, F32), br, short(24));
                     chk_rounding::<f32>(rec, &format!("Repr<{}>::to_f32", B), &cls, case, guard(|| f.repr().to_f32()), &w32);
                 }
             }
